@@ -51,6 +51,35 @@ Theorem C02_found_implies_registered_obfs4 :
 Proof. exact top_found_obfs4. Qed.
 Print Assumptions C02_found_implies_registered_obfs4.
 
+(* ---- the negative forms: a stream that carries no identifier validated and unexpired on this phantom
+        (replayed on another phantom, aimed at an unvalidated or expired registration) is never accepted *)
+Theorem C02_validated_live_decidable :
+  forall ops ph id, validated_live ops ph id <-> vlive_b ops ph id = true.
+Proof. exact vlive_b_spec. Qed.
+Print Assumptions C02_validated_live_decidable.
+
+Theorem C02_not_registered_never_found_min :
+  forall ops ph data,
+    ~ validated_live ops ph (take min_tag_len data) ->
+    forall r c, wrap_min (get_regs (run ops) ph) data <> Found r c.
+Proof. exact top_never_min. Qed.
+Print Assumptions C02_not_registered_never_found_min.
+
+Theorem C02_not_registered_never_found_prefix :
+  forall reveal order keys ops ph data,
+    (forall p k id, In p order -> In k keys -> reveal k (tag_at p data) = Some id -> ~ validated_live ops ph id) ->
+    forall r c, wrap_prefix_ord reveal order keys (get_regs (run ops) ph) data <> Found r c.
+Proof. exact top_never_prefix. Qed.
+Print Assumptions C02_not_registered_never_found_prefix.
+
+Theorem C02_not_registered_never_found_obfs4 :
+  forall mark hs order ops ph data,
+    incl order (get_regs (run ops) ph) ->
+    (forall id, mark_window data = mark id (take o_rep_len data) -> ~ validated_live ops ph id) ->
+    forall r c, wrap_obfs4_ord mark hs order data <> Found r c.
+Proof. exact top_never_obfs4. Qed.
+Print Assumptions C02_not_registered_never_found_obfs4.
+
 (* ---- found_unique *)
 Theorem C02_found_unique_same_identifier :
   forall (v : view) id r1 r2, NoDup (ids v) -> In (id, r1) v -> In (id, r2) v -> r1 = r2.
